@@ -38,7 +38,7 @@ func init() {
 
 func init() {
 	cfgs["C07"] = &propCfg{
-		Workers: map[string]int{"pristine": 16},
+		Workers: map[string]int{"pristine": 13, "instr": 3},
 		QuickS:  20, ThorS: 420,
 		Real: []string{"ZoneParser (NewZoneParser, Next, Err, SetIncludeAllowed, SetIncludeFS, SetDefaultTTL)", "zlexer", "$INCLUDE / $GENERATE / $ORIGIN / $TTL handling", "every RR type's text parser reached by the corpus", "ReadRR", "DNSKEY.ReadPrivateKey"},
 		Stub: []string{"the disk: an in-memory fs.FS and io.Reader with injected faults (simfs)", "the os.Open branch of $INCLUDE (an fs.FS is always configured)"},
